@@ -11,7 +11,9 @@
 (*   {"ev":"recv-request","id":m,"cmd":c,"key":k}                           *)
 (*   {"ev":"send-response","id":m,"err":b,"held":b}                         *)
 (*   {"ev":"close-stdin"}   {"ev":"exit","code":0}   {"ev":"end"}           *)
-(* Sessions are concatenated, each one terminated by {"ev":"end"} and       *)
+(* The packets of a session are validated key by key (see project() in     *)
+(* c20svc.go): one trace per build key, one for the requests without a key; *)
+(* the traces are concatenated, each one terminated by {"ev":"end"} and     *)
 (* separated by {"ev":"reset"}.                                             *)
 (*                                                                          *)
 (* What the pipe order guarantees: a packet the client sent is visible to   *)
@@ -63,17 +65,15 @@ PktIsNext(p, rq) ==
             /\ TraceLog[j].kind \in Kinds(rq[p.id].kind)
        ELSE /\ TraceLog[j].ev = "recv-request" /\ TraceLog[j].cmd = p.cmd /\ TraceLog[j].key = p.key
 
-TraceInit == Init /\ l = 1 /\ TLCSet(1, 1) /\ TLCSet(2, {}) /\ TLCSet(3, 1)
+TraceInit == Init /\ l = 1 /\ TLCSet(1, 1) /\ TLCSet(3, 1)
 
-\* end of a session: remember whether it was matched without any callback
-\* request that outlived its build (register 2: the positions of the "end"
-\* events reached that way).  Once a session has been matched that way
-\* nothing more can be learnt from the other ways to match it: register 3
-\* holds the position below which states are not explored any further
-\* (depth-first queue: the rest of the session's state space is skipped).
+\* end of a session (of the packets of one key of a session): it has been
+\* matched, nothing more can be learnt from the other ways to match it.
+\* Register 3 holds the position below which states are not explored any
+\* further (depth-first queue: the rest of its state space is skipped).
 TrEnd ==
   /\ IsEv("end") /\ Consume
-  /\ IF ~stragUsed THEN TLCSet(2, TLCGet(2) \cup {l}) /\ TLCSet(3, l + 1) ELSE TRUE
+  /\ TLCSet(3, l + 1)
   /\ UNCHANGED vars
 
 \* a new session starts: re-install the initial state
@@ -92,8 +92,6 @@ TraceReset ==
   /\ grp' = [x \in {} |-> 0]
   /\ usedKeys' = {}
   /\ ncb' = 0
-  /\ strag' = [k \in Keys |-> FALSE]
-  /\ stragUsed' = FALSE
   /\ opAfterDispose' = FALSE
 
 TrSend ==
@@ -155,6 +153,5 @@ TraceSpec == TraceInit /\ [][TraceNext]_tvars
 HighWater == (IF l > TLCGet(1) THEN TLCSet(1, l) ELSE TRUE) /\ l >= TLCGet(3)
 TraceAccepted ==
   /\ PrintT(<<"HIGHWATER", TLCGet(1)>>)
-  /\ PrintT(<<"STRICT", TLCGet(2)>>)
   /\ TLCGet(1) = Len(TraceLog) + 1
 =============================================================================
